@@ -348,7 +348,7 @@ func postPPDrive(prop string) func(seed uint64, tier string, cov *Cov) ([]*Viola
 				panic(p)
 			}
 		}()
-		runs := 60
+		runs := 90
 		if tier == "thorough" {
 			runs = 4000
 		}
@@ -361,6 +361,31 @@ func postPPDrive(prop string) func(seed uint64, tier string, cov *Cov) ([]*Viola
 			cfg.VeryLong = false
 			cfg.ExactRaceSep = prop == "C02" && r.Chance(0.1)
 			doc := gen.Generate(r, cfg)
+			if r.Chance(0.4) {
+				// what coloured loggers, progress bars and terminal-aware tools write:
+				// SGR and non-SGR control sequences, an OSC title, a sequence cut at
+				// the end of the line. Inserted in front of the stream and after
+				// junk lines (where any text may stand).
+				esc := []string{"\x1b[K erase to end of line\n", "progress \x1b[2K\x1b[1G 50% done\n", "\x1b]0;window title\x07 after the title\n", "\x1b[?25l cursor hidden\n", "\x1b[31mred\x1b[0m and \x1b[1;32mgreen\x1b[m\n", "sequence cut at the end \x1b[\n", "\x1b(B charset\n"}
+				// positions: -1 = in front of the stream; i = after junk item i
+				at := []int{-1}
+				for i, it := range doc.Items {
+					if it.Kind == "junk" && strings.TrimRight(it.Text, "\r\n") != "" && strings.HasSuffix(it.Text, "\n") {
+						at = append(at, i)
+					}
+				}
+				for k, n := 0, r.Range(1, 3); k < n; k++ {
+					pos := at[r.Intn(len(at))] + 1
+					it := gen.Item{Kind: "junk", Text: esc[r.Intn(len(esc))]}
+					doc.Items = append(doc.Items[:pos:pos], append([]gen.Item{it}, doc.Items[pos:]...)...)
+					for j := range at {
+						if at[j] >= pos {
+							at[j]++
+						}
+					}
+				}
+				cov.Probe("pp-input-with-control-sequences")
+			}
 			s := gen.Render(doc)
 			scheds := loopSchedules(r, s, 1, true)
 			for _, sc := range []iosim.Schedule{scheds[len(scheds)-1], scheds[len(scheds)-2]} {
@@ -368,7 +393,7 @@ func postPPDrive(prop string) func(seed uint64, tier string, cov *Cov) ([]*Viola
 					continue
 				}
 				c := &Case{Prop: prop, Run: uint64(i), Seed: seed, Mode: "ppdrive", Doc: doc, Sched: sc, NameArgs: true}
-				if fl := [][]string{nil, nil, {"-f", "ZZZNOMATCH"}, {"-m", "."}, {"-aggressive"}, {"-full-path"}, {"-parse=false"}, {"-html", "HTMLFILE"}}[r.Intn(8)]; fl != nil {
+				if fl := [][]string{nil, nil, {"-f", "ZZZNOMATCH"}, {"-m", "."}, {"-aggressive"}, {"-full-path"}, {"-parse=false"}, {"-html", "HTMLFILE"}, {"-force-color"}, {"-force-color"}}[r.Intn(10)]; fl != nil {
 					if fl[0] == "-html" {
 						fl = []string{"-html", fmt.Sprintf("%s/ppdrive-%s-%d-%d.html", os.TempDir(), prop, seed, i)}
 					}
